@@ -22,6 +22,7 @@ func propC17(c *Ctx) {
 	c.ruleMethodExhaustive()
 	c.rulePathParamsRequired()
 	c.rulePathParamsComplete()
+	c.ruleTemplateExpressions("C17-TEMPLATE-EXPRESSIONS")
 	c.ruleComponentsIffTypes()
 	c.ruleResponseKeys()
 	c.ruleExpandedTree()
@@ -619,4 +620,71 @@ func (c *Ctx) readsBeforeExpansion(f *Fn, fld *types.Var) string {
 		}
 	}
 	return "only called before the expansion runs"
+}
+
+// ---------- every template expression of a path is a parameter ----------
+
+// ruleTemplateExpressions: the export uses the path of an interaction as the key of `paths`; OpenAPI reads every
+// `{name}` in that key as a template expression that must be declared. The module finds the parameters of a path in
+// one function (core.pathParameters); whatever it does not recognise is exported as part of the key, undeclared.
+func (c *Ctx) ruleTemplateExpressions(rule string) {
+	r := c.R
+	r.Rule(rule, "the function that finds the parameters of a path (core.pathParameters) either looks at every byte of a segment (a range over it, or a strings.Index/Contains/Count/Split call on it) or the builder refuses braces inside a segment: a recogniser that only compares the first and the last byte of a segment with '{' and '}' leaves `/files/{name}.json` and `/a/{x}-{y}` with template expressions that the OpenAPI document never declares", 1)
+	f := c.fn("core", "pathParameters")
+	if f == nil {
+		r.Undecided(rule, "anchor", "core.pathParameters not found", "")
+		return
+	}
+	pk := f.Pkg
+	// the loop over the segments
+	var seg types.Object
+	ast.Inspect(f.Decl.Body, func(nd ast.Node) bool {
+		rs, ok := nd.(*ast.RangeStmt)
+		if !ok || rs.Value == nil {
+			return true
+		}
+		if id, ok := rs.Value.(*ast.Ident); ok {
+			if b, isB := pk.TypesInfo.TypeOf(id).Underlying().(*types.Basic); isB && b.Kind() == types.String {
+				seg = pk.TypesInfo.Defs[id]
+			}
+		}
+		return true
+	})
+	if seg == nil {
+		r.Undecided(rule, "sites", "no loop over the segments of the path found in core.pathParameters", c.pos(f.Decl.Pos()))
+		return
+	}
+	ends, scans := 0, false
+	ast.Inspect(f.Decl.Body, func(nd ast.Node) bool {
+		switch x := nd.(type) {
+		case *ast.IndexExpr:
+			if id, ok := ast.Unparen(x.X).(*ast.Ident); ok && pk.TypesInfo.Uses[id] == seg {
+				ends++
+			}
+		case *ast.RangeStmt:
+			if id, ok := ast.Unparen(x.X).(*ast.Ident); ok && pk.TypesInfo.Uses[id] == seg {
+				scans = true
+			}
+		case *ast.CallExpr:
+			cal := callee(pk, x)
+			if cal == nil || cal.Pkg() == nil || (cal.Pkg().Path() != "strings" && cal.Pkg().Path() != "regexp") {
+				return true
+			}
+			for _, a := range x.Args {
+				if id, ok := ast.Unparen(a).(*ast.Ident); ok && pk.TypesInfo.Uses[id] == seg {
+					switch {
+					case strings.HasPrefix(cal.Name(), "Index"), strings.HasPrefix(cal.Name(), "Contains"), strings.HasPrefix(cal.Name(), "Count"), strings.HasPrefix(cal.Name(), "Split"), strings.HasPrefix(cal.Name(), "Find"), strings.HasPrefix(cal.Name(), "Match"), strings.HasPrefix(cal.Name(), "Cut"):
+						scans = true
+					}
+				}
+			}
+		}
+		return true
+	})
+	key := f.Name() + " | segment recogniser"
+	if scans {
+		r.Ok(rule, key, "the recogniser looks inside the segment", c.pos(f.Decl.Pos()))
+		return
+	}
+	r.Bad(rule, key, fmt.Sprintf("a segment is a parameter only if its first byte is '{' and its last is '}' (%d index expressions on the segment, nothing looks inside): `GET /files/{name}.json` is exported under the key \"/files/{name}.json\" without a parameter, `GET /a/{x}-{y}` with one parameter named \"x}-{y\" - template expressions that are not declared", ends), c.pos(f.Decl.Pos()))
 }
